@@ -86,6 +86,34 @@ Theorem c12_start_steps_keep_plans :
 Proof. exact start_steps_keep_plans. Qed.
 Print Assumptions c12_start_steps_keep_plans.
 
+(* "Exactly one": a Start that returns nil has spawned the run, not merely registered a waiter; a registered
+   waiter always belongs to a live run; and a run is never stuck (its next step is enabled at every stage), so
+   Wait on it is released and the plan ends terminal.  (What 5e33fe2 repaired in the code: the pool could drop
+   the run when the caller's context was cancelled, leaving a waiter without a run.) *)
+Theorem c12_accepted_start_spawns_run :
+  forall ms s k s', reach (fixed ms) s -> step (fixed ms) s (LStartLaunch k) = Some (s', ROk) ->
+  exists id, engines (get s' id) = [ESpawned] /\ waiter (get s' id) = WOpen /\ execs (get s' id) = 1%nat
+             /\ exists s'', step (fixed ms) s' (LEngRunning id 0) = Some (s'', RNone).
+Proof. exact accepted_start_spawns_run. Qed.
+Print Assumptions c12_accepted_start_spawns_run.
+
+Theorem c12_waiter_has_run :
+  forall ms s id, reach (fixed ms) s -> waiter (get s id) <> WNone ->
+  exists e, engines (get s id) = [e] /\ execs (get s id) = 1%nat.
+Proof. exact waiter_has_run. Qed.
+Print Assumptions c12_waiter_has_run.
+
+Theorem c12_run_not_stuck :
+  forall ms s id e, reach (fixed ms) s -> engines (get s id) = [e] ->
+  match e with
+  | ESpawned => exists s', step (fixed ms) s (LEngRunning id 0) = Some (s', RNone)
+  | ERunning => exists s', step (fixed ms) s (LEngFinish id 0 Completed) = Some (s', RNone)
+  | ETerminal => exists s', step (fixed ms) s (LEngRelease id 0) = Some (s', RNone)
+  | EClosed => exists s', step (fixed ms) s (LEngCleanup id 0) = Some (s', RNone)
+  end.
+Proof. exact run_not_stuck. Qed.
+Print Assumptions c12_run_not_stuck.
+
 (* ... and the property is not met by rejecting everything: Start on a plan that validates and has no waiter
    returns nil and launches it - it had 0 executions, now has exactly 1. *)
 Theorem c12_startable_plan_starts_once :
